@@ -53,6 +53,12 @@ const VOCAB: &[&str] = &[
     "(s\"SELECT * FROM {t1}\")", "s\"COALESCE({a}, 0)\"", "r\"a\\b\"", "\"é漢😀\"", "f\"é{a}漢\"", "'''a'''", "\"\\u{1F600}\"", "\"\\x41\"",
 ];
 
+/// s-strings and strings in which a blank is a multi-byte look-alike (text pasted from a document)
+const VOCAB_WIDE: &[&str] = &[
+    "from s\"SELECT\u{a0}* FROM t1\"", "from s\"SELECT\u{3000}id FROM t1\"", "s\"select\u{a0}1 as id\"", "(s\"SELECT\u{2028}* FROM {t1}\")",
+    "s\"COALESCE({a},\u{a0}0)\"", "\"a\u{a0}b\"", "f\"{a}\u{3000}{a}\"", "from\u{a0}t1", "select\u{a0}{id}", "r\"a\u{a0}b\"",
+];
+
 /// characters that look like a space or a letter but take more than one byte
 const WIDE: &[&str] = &["\u{a0}", "\u{3000}", "\u{2028}", "é", "漢", "😀", "e\u{301}", "\u{feff}"];
 
@@ -61,7 +67,14 @@ fn base_source(t: &mut Tape) -> String {
     cfg.bias = *t.pick(&[Bias::General, Bias::Frame, Bias::Window, Bias::Sort]);
     cfg.hazards = c16::ALL_HAZARDS.to_vec();
     let c = c01::gen_case(t, cfg);
-    print::program(&c.prog)
+    let mut src = print::program(&c.prog);
+    // sometimes the first table is read through a table s-string (a valid program: the mutations
+    // below then also hit the SQL fragment)
+    if t.chance(1, 8) {
+        let re = regex::Regex::new(r"from (t[0-9])\b").unwrap();
+        src = re.replace(&src, "from s\"SELECT * FROM $1\"").into_owned();
+    }
+    src
 }
 
 /// token-level mutation of a valid program
@@ -130,8 +143,8 @@ pub fn gen_source_case(t: &mut Tape) -> Case {
                 let j = t.choose(pieces.len());
                 pieces.swap(i, j);
             }
-            3 => pieces[i] = t.pick(VOCAB).to_string(),
-            4 => pieces.insert(i, t.pick(VOCAB).to_string()),
+            3 => pieces[i] = if t.chance(1, 8) { t.pick(VOCAB_WIDE) } else { t.pick(VOCAB) }.to_string(),
+            4 => pieces.insert(i, if t.chance(1, 8) { t.pick(VOCAB_WIDE) } else { t.pick(VOCAB) }.to_string()),
             _ => {
                 let j = t.choose(pieces.len());
                 pieces[i] = pieces[j].clone();
